@@ -5,6 +5,7 @@ import json, os, subprocess, sys, re, time
 V = '/verif'
 ids = sorted(d for d in os.listdir(V + '/seeded') if os.path.isdir(f'{V}/seeded/{d}') and os.path.exists(f'{V}/seeded/{d}/patch.diff'))
 only = sys.argv[1:]
+NOTES = {'C05-r2': ('HELD - change neutralised by a later repair', "This change (write() marks the handle dirty only inside the copy loop) broke C05 through one path only: an empty write allocated a first cluster without marking the handle dirty, so the cluster leaked. The quick check reported it (C05.leak) until the library's own defect behind that path was repaired (fix 6497a0b: an empty write returns early and allocates nothing). On the repaired library the change has no observable effect in fault-free histories, and the check is rightly silent.")}
 rows = []
 for i in ids:
     if only and i not in only:
@@ -49,6 +50,10 @@ for i in ids:
         'first_signatures': sigs,
         'wall_s': round(time.time() - t0, 1),
     }
+    # notes written by hand survive a re-run
+    if i in NOTES and verdict == 'HELD':
+        meta['verdict_of_quick_check'] = NOTES[i][0]
+        meta['note'] = NOTES[i][1]
     json.dump(meta, open(f'{V}/seeded/{i}/meta.json', 'w'), indent=1)
     rows.append((i, prop, verdict, sigs[0] if sigs else '', am.get('summary', '')[:140]))
     print(i, verdict, sigs[:1], flush=True)
